@@ -297,10 +297,143 @@ let cmd_cursor (ps : int) (file : string) (ops : string) : unit =
                   | _ -> print_endline "badop"))
         | _ -> print_endline "badop") (read_lines ops)
 
+(* ---------- page-lifecycle acceptor + free-list replay over hook events (C03/C05/C06/C10) ---------- *)
+let ints (ws : string list) : coq_N list = L.map num ws
+(* dump: n_free free... n_pend (tx cnt pages...)... *)
+let parse_dump (ws : string list) : coq_N list * (coq_N * coq_N list) list =
+  let a = Array.of_list ws in
+  let pos = ref 0 in
+  let nxt () = let v = a.(!pos) in incr pos; v in
+  let nf = int_of_string (nxt ()) in
+  let free = L.init nf (fun _ -> num (nxt ())) in
+  let np = int_of_string (nxt ()) in
+  let pend = L.init np (fun _ ->
+    let t = num (nxt ()) in
+    let c = int_of_string (nxt ()) in
+    (t, L.init c (fun _ -> num (nxt ())))) in
+  (free, pend)
+
+let split_bar (ws : string list) : string list * string list =
+  let rec go acc l = match l with [] -> (L.rev acc, []) | "|" :: r -> (L.rev acc, r) | x :: r -> go (x :: acc) r in
+  go [] ws
+
+let eq_nlist (a : coq_N list) (b : coq_N list) : bool = L.map string_of_n a = L.map string_of_n b
+let eq_pend a b = L.length a = L.length b && L.for_all2 (fun (t, ps) (u, qs) -> string_of_n t = string_of_n u && eq_nlist ps qs) a b
+let fmt_pend p = S.concat ";" (L.map (fun (t, ps) -> string_of_n t ^ ":" ^ fmt_ids ps) p)
+
+let cmd_pl (ps : int) (evfile : string) : unit =
+  let p = n_of_int ps in
+  let st = ref PL.init_pl in
+  let shared = ref { Freelist.fl_free = []; Freelist.fl_pending = [] } in
+  let wtx : Freelist.txfl option ref = ref None in
+  let written : coq_N list ref = ref [] in
+  let pending_publish = ref None in
+  let last_tx = ref N0 and last_np = ref (n_of_int 4) in
+  let pl_lost = ref false in       (* a commit without a snapshot: the acceptor cannot follow any further *)
+  let n = ref 0 in
+  let reject why = Printf.printf "REJECT event=%d %s\n" !n why in
+  let pl_step (e : PL.event) (what : string) =
+    if !pending_publish <> None then pl_lost := true;
+    if !pl_lost then () else
+    match PL.accept !st e with
+    | Some s' -> st := s'
+    | None -> reject ("page-lifecycle machine does not accept " ^ what) in
+  L.iter (fun line ->
+    incr n;
+    let w = L.filter (fun x -> x <> "") (S.split_on_char ' ' (S.trim line)) in
+    match w with
+    | [] -> ()
+    | "B" :: mode :: txid :: rest ->
+        let (hd, dump) = split_bar rest in
+        let readers = ints hd in
+        let (free, pend) = parse_dump dump in
+        if mode = "r" then pl_step PL.EBeginR "reader begin"
+        else begin
+          (* free-list replay: begin_writer on the model's shared list must give what the library has *)
+          let rds = (match readers with [] -> [] | _ -> readers) in
+          let tf = Freelist.begin_writer !shared !last_np !last_tx p rds in
+          if not (eq_nlist tf.Freelist.tf_inner.Freelist.fl_free free && eq_pend tf.Freelist.tf_inner.Freelist.fl_pending pend) then
+            reject (Printf.sprintf "writer begin tx=%s: model free=[%s] pend=[%s] library free=[%s] pend=[%s]" txid
+                      (fmt_ids tf.Freelist.tf_inner.Freelist.fl_free) (fmt_pend tf.Freelist.tf_inner.Freelist.fl_pending)
+                      (fmt_ids free) (fmt_pend pend));
+          if string_of_n tf.Freelist.tf_tx <> txid then reject ("writer tx id: model " ^ string_of_n tf.Freelist.tf_tx ^ " library " ^ txid);
+          wtx := Some { tf with Freelist.tf_inner = { Freelist.fl_free = free; Freelist.fl_pending = pend } };
+          written := [];
+          pl_step (PL.EBeginW (free, pend)) "writer begin (released free list)"
+        end
+    | ["A"; bytes; np_; pg] ->
+        (match !wtx with
+         | None -> reject "alloc outside a write transaction"
+         | Some tf ->
+             let ((pg', n'), tf') = Freelist.tx_allocate tf (num bytes) in
+             if string_of_n pg' <> pg || string_of_n n' <> np_ then
+               reject (Printf.sprintf "allocate(%s bytes): model page=%s n=%s library page=%s n=%s" bytes (string_of_n pg') (string_of_n n') pg np_);
+             wtx := Some tf')
+    | ["F"; pg; cnt] ->
+        (match !wtx with
+         | None -> reject "free outside a write transaction"
+         | Some tf -> wtx := Some (Freelist.tx_free tf (num pg) (num cnt)))
+    | ["W"; pg; size] ->
+        let np_ = (int_of_string size + ps - 1) / ps in
+        written := !written @ L.init np_ (fun i -> n_of_int (int_of_string pg + i))
+    | "P" :: txid :: npv :: _flp :: _root :: rest ->
+        let (_, dump) = split_bar rest in
+        let (free, pend) = parse_dump dump in
+        (match !wtx with
+         | None -> reject "publish outside a write transaction"
+         | Some tf ->
+             if not (eq_nlist tf.Freelist.tf_inner.Freelist.fl_free free && eq_pend tf.Freelist.tf_inner.Freelist.fl_pending pend) then
+               reject (Printf.sprintf "publish tx=%s: model free=[%s] pend=[%s] library free=[%s] pend=[%s]" txid
+                         (fmt_ids tf.Freelist.tf_inner.Freelist.fl_free) (fmt_pend tf.Freelist.tf_inner.Freelist.fl_pending)
+                         (fmt_ids free) (fmt_pend pend));
+             if string_of_n tf.Freelist.tf_np <> npv then reject ("num_pages: model " ^ string_of_n tf.Freelist.tf_np ^ " library " ^ npv);
+             shared := { Freelist.fl_free = free; Freelist.fl_pending = pend };
+             last_tx := num txid; last_np := num npv;
+             pending_publish := Some (free, pend);
+             wtx := None)
+    | ["S"; file] ->
+        (* snapshot taken after a commit: decode live set, high-water mark, tx id from the file *)
+        (match !pending_publish with
+         | None -> ()
+         | Some (free, pend) ->
+             pending_publish := None;
+             let s = read_file file in
+             let rd = reader_of_string s in
+             (match Tree.open_db rd p with
+              | Codec.Bad m -> reject ("snapshot does not open: " ^ string_of_coq m)
+              | Codec.Ok o ->
+                  let m = o.Tree.o_meta in
+                  (match Tree.bucket_pages (nat_of_int (int_of_n m.Meta.m_np)) rd p m.Meta.m_np m.Meta.m_root with
+                   | Codec.Bad msg -> reject ("snapshot tree: " ^ string_of_coq msg)
+                   | Codec.Ok reach ->
+                       let live' = reach @ o.Tree.o_flrun in
+                       (* the free-list page must list exactly free + pending of the published list *)
+                       let want = Freelist.fl_pages { Freelist.fl_free = free; Freelist.fl_pending = pend } in
+                       if not (eq_nlist want o.Tree.o_free) then
+                         reject (Printf.sprintf "free-list page: model [%s] file [%s]" (fmt_ids want) (fmt_ids o.Tree.o_free));
+                       pl_step (PL.ECommit (!written, free, pend, live', m.Meta.m_np, m.Meta.m_tx)) "commit (contract c1-c8)")))
+    | ["X"] -> wtx := None; pl_step PL.ERollback "rollback"
+    | "E" :: txid :: _ -> pl_step (PL.EEndR (num txid)) ("reader end " ^ txid)
+    | "R" :: file :: _ ->
+        let s = read_file file in
+        let rd = reader_of_string s in
+        (match Tree.open_db rd p with
+         | Codec.Bad m -> reject ("reopen: file does not open: " ^ string_of_coq m)
+         | Codec.Ok o ->
+             shared := Freelist.fl_init o.Tree.o_free;
+             last_tx := o.Tree.o_meta.Meta.m_tx; last_np := o.Tree.o_meta.Meta.m_np;
+             wtx := None;
+             pl_step (PL.EReopen (!shared).Freelist.fl_free) "reopen (free list = free + pending)")
+    | _ -> reject ("unparsed event: " ^ line)) (read_lines evfile);
+  let s = !st in
+  Printf.printf "done lost=%b events=%d np=%s tx=%s live=%d free=%d pend=%d readers=%d\n" !pl_lost !n (string_of_n s.PL.np) (string_of_n s.PL.tx)
+    (L.length s.PL.live) (L.length s.PL.free) (L.length (L.concat (L.map snd s.PL.pend))) (L.length s.PL.readers)
+
 let () =
   match Array.to_list Sys.argv with
   | _ :: "spec" :: hist :: fout :: eout :: _ -> cmd_spec hist fout eout
   | _ :: "select" :: ps :: files -> cmd_select (int_of_string ps) files
   | _ :: "inv" :: ps :: files -> cmd_inv (int_of_string ps) files
   | _ :: "cursor" :: ps :: file :: ops :: _ -> cmd_cursor (int_of_string ps) file ops
-  | _ -> prerr_endline "usage: monitor spec|select|inv|cursor ..."; exit 2
+  | _ :: "pl" :: ps :: evs :: _ -> cmd_pl (int_of_string ps) evs
+  | _ -> prerr_endline "usage: monitor spec|select|inv|cursor|pl ..."; exit 2
